@@ -1,9 +1,10 @@
 #!/bin/sh
-# confirm_seed.sh <name> <worktree> <property>
-# 1. in the scratch worktree (change applied): demo fails; test suite passes; with the change stashed: demo passes
-# 2. apply the diff to /repo, run all 19 quick checks, record which report a VIOLATION, undo
+# confirm_seed.sh <name> <worktree> <property> [verif-dir]
+# 1. in the scratch worktree (change applied): demo fails; full test suite passes; with the change reverted: demo passes
+# 2. apply the diff to /repo, run all 19 quick checks (from <verif-dir>, default /verif), record which report a
+#    VIOLATION, undo (git -C /repo checkout -- .)
 set -u
-name=$1; wt=$2; prop=$3
+name=$1; wt=$2; prop=$3; vd=${4:-/verif}
 out=/verif/seeded/$name
 mkdir -p $out
 cp $wt/mutation.diff $out/patch.diff
@@ -11,30 +12,35 @@ cp $wt/demo.py $out/demo.py
 [ -f $wt/NOTES.md ] && cp $wt/NOTES.md $out/NOTES.md
 cd $wt
 PYTHONPATH=$wt /venv/bin/python demo.py > $out/demo_with.log 2>&1; with=$?
-git stash -q
+git apply -R mutation.diff
 PYTHONPATH=$wt /venv/bin/python demo.py > $out/demo_without.log 2>&1; without=$?
-git stash pop -q
-( /venv/bin/python -m pytest -q -p no:cacheprovider tests 2>&1 | tail -1 ) > $out/pytest.log
-echo "demo_with_change_exit=$with demo_without_change_exit=$without pytest: $(cat $out/pytest.log)"
-cd /verif
+git apply mutation.diff
+[ -f $out/pytest.log ] || ( /venv/bin/python -m pytest -q -p no:cacheprovider tests 2>&1 | tail -1 ) > $out/pytest.log
+cd $vd
 git -C /repo apply $out/patch.diff || { echo "patch does not apply to /repo"; exit 1; }
 : > $out/checks.log
 for p in C01 C02 C03 C04 C05 C06 C07 C08 C09 C10 C11 C12 C13 C14 C15 C16 C17 C18 C19; do
   ./check $p --tier quick > /tmp/seed_$p.log 2>&1; rc=$?
   echo "$p exit=$rc $(grep VIOLATION /tmp/seed_$p.log | sed 's/replay=[^ ]*//')" >> $out/checks.log
-  if [ $rc -ne 0 ]; then f=$(grep -o 'replay=[^ ]*' /tmp/seed_$p.log | head -1 | cut -d= -f2); [ -n "$f" ] && cp $f $out/replay_$p.json; fi
+  if [ $rc -ne 0 ] && [ "$p" = "$prop" ]; then f=$(grep -o 'replay=[^ ]*' /tmp/seed_$p.log | head -1 | cut -d= -f2); [ -n "$f" ] && cp $f $out/replay_$p.json; fi
 done
 git -C /repo checkout -- .
-cat $out/checks.log | grep -v "exit=0"
-python3 - "$name" "$prop" "$with" "$without" <<'PY'
-import json,sys,os
-name,prop,w,wo=sys.argv[1:5]
+python3 - "$name" "$prop" "$with" "$without" "$vd" <<'PY'
+import json,sys,os,subprocess
+name,prop,w,wo,vd=sys.argv[1:6]
 out='/verif/seeded/'+name
-checks=[l.split()[0] for l in open(out+'/checks.log') if 'exit=1' in l]
+lines=[l.strip() for l in open(out+'/checks.log')]
+checks=[l.split()[0] for l in lines if 'exit=1' in l]
+with_input=[l.split()[0] for l in lines if 'exit=1' in l and 'no-failing-input-found' not in l]
+notes=open(out+'/NOTES.md').read() if os.path.exists(out+'/NOTES.md') else ''
+commit=subprocess.run(['git','-C','/verif','rev-parse','--short','HEAD'],capture_output=True,text=True).stdout.strip()
 meta=dict(name=name, breaks_property=prop, demo_exit_with_change=int(w), demo_exit_without_change=int(wo),
-          pytest_with_change=open(out+'/pytest.log').read().strip(), checks_reporting_violation=checks,
-          detected_by_target_check=prop in checks,
-          ran="tools/confirm_seed.sh: demo.py with/without the change in a scratch worktree, full pytest with the change, then git -C /repo apply patch.diff; ./check Cxx --tier quick for all 19; git -C /repo checkout -- .")
+          pytest_with_change=open(out+'/pytest.log').read().strip(),
+          checks_reporting_violation=checks, checks_reporting_a_failing_input=with_input,
+          detected_by_target_check=prop in checks, target_check_gives_failing_input=prop in with_input,
+          needs_to_manifest="see NOTES.md (written by the author of the change)",
+          verif_commit=commit,
+          ran="tools/confirm_seed.sh: demo.py with the change and with it reverted (git apply -R) in a scratch worktree; full pytest with the change; then git -C /repo apply patch.diff; ./check Cxx --tier quick for all 19 (from %s, a copy of /verif at the commit above); git -C /repo checkout -- ." % vd)
 json.dump(meta,open(out+'/meta.json','w'),indent=1)
-print(json.dumps(meta))
+print(json.dumps({k:meta[k] for k in ('name','demo_exit_with_change','demo_exit_without_change','pytest_with_change','detected_by_target_check','target_check_gives_failing_input')}))
 PY
